@@ -49,6 +49,10 @@ Bases == SeqOf(PartBases) \o <<
   [f |-> << <<Plain(1)>>, <<Plain(2)>> >>, lay |-> "substvar_last", sv |-> 1],
   [f |-> << <<Plain(1)>>, <<Plain(2)>> >>, lay |-> "empty_entry", sv |-> 0],
   [f |-> << <<Plain(1), Plain(2)>> >>, lay |-> "trailing_comma", sv |-> 0],
+  \* blanks after the trailing comma (", " / a folded line ",\n "), and a field of blanks only
+  [f |-> << <<Plain(1)>>, <<Plain(2)>> >>, lay |-> "trailing_comma_blank", sv |-> 0],
+  [f |-> << <<Plain(1)>>, <<Plain(2), Plain(3)>> >>, lay |-> "trailing_comma_fold", sv |-> 0],
+  [f |-> <<>>, lay |-> "blank_only", sv |-> 0],
   \* alternatives on lines of their own: the newline follows the '|'
   [f |-> << <<Plain(1), Plain(2)>>, <<Plain(3)>> >>, lay |-> "pipe_newline", sv |-> 0],
   [f |-> << <<Plain(3)>>, <<Plain(1), R(2, 1, 0, 0, 0)>> >>, lay |-> "pipe_newline", sv |-> 0],
